@@ -95,47 +95,48 @@ def exprLines (e : Str) (raw : Bool) (autoescape : Option Str) : List Str :=
 
 def W.writeAll (w : W) (codes : List Str) (lineno : Nat) : W := codes.foldl (fun w c => w.write c lineno) w
 
+/-- `chunk.generate(writer)` for one chunk; `g` generates a body (the recursive call) -/
+def genNode (L : Loader) (named : List Named) (g : List Node → W → W) (n : Node) (w : W) : W :=
+  match n with
+  | .text v line ws =>
+    let value := textValue v ws
+    if value.isEmpty then w else w.write ((/-"_tt_append("-/ [95, 116, 116, 95, 97, 112, 112, 101, 110, 100, 40] : List Nat) ++ reprBytes (utf8 value) ++ (/-")"-/ [41] : List Nat)) line
+  | .expr e line raw => w.writeAll (exprLines e raw w.cur.autoescape) line
+  | .stmt s line => w.write s line
+  | .inter s line =>
+    let w1 := w.write (/-"pass"-/ [112, 97, 115, 115] : List Nat) line
+    w1.writeAt (w1.indent - 1) (s ++ (/-":"-/ [58] : List Nat)) true line
+  | .control s line body =>
+    let w1 := w.writeHdr (s ++ (/-":"-/ [58] : List Nat)) line
+    let w2 := g body { w1 with indent := w1.indent + 1 }
+    let w3 := w2.write (/-"pass"-/ [112, 97, 115, 115] : List Nat) line
+    { w3 with indent := w3.indent - 1 }
+  | .apply m line body =>
+    let mname := (/-"_tt_apply"-/ [95, 116, 116, 95, 97, 112, 112, 108, 121] : List Nat) ++ dec w.counter
+    let w1 := { w with counter := w.counter + 1 }
+    let w2 := w1.writeHdr ((/-"def "-/ [100, 101, 102, 32] : List Nat) ++ mname ++ (/-"():"-/ [40, 41, 58] : List Nat)) line
+    let w3 := { w2 with indent := w2.indent + 1 }
+    let w4 := (w3.write (/-"_tt_buffer = []"-/ [95, 116, 116, 95, 98, 117, 102, 102, 101, 114, 32, 61, 32, 91, 93] : List Nat) line).write (/-"_tt_append = _tt_buffer.append"-/ [95, 116, 116, 95, 97, 112, 112, 101, 110, 100, 32, 61, 32, 95, 116, 116, 95, 98, 117, 102, 102, 101, 114, 46, 97, 112, 112, 101, 110, 100] : List Nat) line
+    let w5 := g body w4
+    let w6 := w5.write (/-"return _tt_utf8('').join(_tt_buffer)"-/ [114, 101, 116, 117, 114, 110, 32, 95, 116, 116, 95, 117, 116, 102, 56, 40, 39, 39, 41, 46, 106, 111, 105, 110, 40, 95, 116, 116, 95, 98, 117, 102, 102, 101, 114, 41] : List Nat) line
+    let w7 := { w6 with indent := w6.indent - 1 }
+    w7.write ((/-"_tt_append(_tt_utf8("-/ [95, 116, 116, 95, 97, 112, 112, 101, 110, 100, 40, 95, 116, 116, 95, 117, 116, 102, 56, 40] : List Nat) ++ m ++ (/-"("-/ [40] : List Nat) ++ mname ++ (/-"())))"-/ [40, 41, 41, 41, 41] : List Nat)) line
+  | .block name line _ =>
+    match lookupNamed named name with
+    | none => w.fail .keyError
+    | some b => (g b.body (w.enter b.owner line)).leave
+  | .extends _ => w.fail .notImplemented
+  | .incl name line =>
+    match L.find name with
+    | none => w.fail .keyError
+    | some t => (g t.body (w.enter t line)).leave
+
 /-- `chunk.generate(writer)` for every chunk of a body.  Fuel decreases on every step. -/
 def gen (L : Loader) (named : List Named) : Nat → List Node → W → W
   | 0, _, w => w.fail .fuel
   | _ + 1, [], w => w
   | f + 1, n :: ns, w =>
-    if w.err.isSome then w else
-    let w' : W :=
-      match n with
-      | .text v line ws =>
-        let value := textValue v ws
-        if value.isEmpty then w else w.write ((/-"_tt_append("-/ [95, 116, 116, 95, 97, 112, 112, 101, 110, 100, 40] : List Nat) ++ reprBytes (utf8 value) ++ (/-")"-/ [41] : List Nat)) line
-      | .expr e line raw => w.writeAll (exprLines e raw w.cur.autoescape) line
-      | .stmt s line => w.write s line
-      | .inter s line =>
-        let w1 := w.write (/-"pass"-/ [112, 97, 115, 115] : List Nat) line
-        w1.writeAt (w1.indent - 1) (s ++ (/-":"-/ [58] : List Nat)) true line
-      | .control s line body =>
-        let w1 := w.writeHdr (s ++ (/-":"-/ [58] : List Nat)) line
-        let w2 := gen L named f body { w1 with indent := w1.indent + 1 }
-        let w3 := w2.write (/-"pass"-/ [112, 97, 115, 115] : List Nat) line
-        { w3 with indent := w3.indent - 1 }
-      | .apply m line body =>
-        let mname := (/-"_tt_apply"-/ [95, 116, 116, 95, 97, 112, 112, 108, 121] : List Nat) ++ dec w.counter
-        let w1 := { w with counter := w.counter + 1 }
-        let w2 := w1.writeHdr ((/-"def "-/ [100, 101, 102, 32] : List Nat) ++ mname ++ (/-"():"-/ [40, 41, 58] : List Nat)) line
-        let w3 := { w2 with indent := w2.indent + 1 }
-        let w4 := (w3.write (/-"_tt_buffer = []"-/ [95, 116, 116, 95, 98, 117, 102, 102, 101, 114, 32, 61, 32, 91, 93] : List Nat) line).write (/-"_tt_append = _tt_buffer.append"-/ [95, 116, 116, 95, 97, 112, 112, 101, 110, 100, 32, 61, 32, 95, 116, 116, 95, 98, 117, 102, 102, 101, 114, 46, 97, 112, 112, 101, 110, 100] : List Nat) line
-        let w5 := gen L named f body w4
-        let w6 := w5.write (/-"return _tt_utf8('').join(_tt_buffer)"-/ [114, 101, 116, 117, 114, 110, 32, 95, 116, 116, 95, 117, 116, 102, 56, 40, 39, 39, 41, 46, 106, 111, 105, 110, 40, 95, 116, 116, 95, 98, 117, 102, 102, 101, 114, 41] : List Nat) line
-        let w7 := { w6 with indent := w6.indent - 1 }
-        w7.write ((/-"_tt_append(_tt_utf8("-/ [95, 116, 116, 95, 97, 112, 112, 101, 110, 100, 40, 95, 116, 116, 95, 117, 116, 102, 56, 40] : List Nat) ++ m ++ (/-"("-/ [40] : List Nat) ++ mname ++ (/-"())))"-/ [40, 41, 41, 41, 41] : List Nat)) line
-      | .block name line _ =>
-        match lookupNamed named name with
-        | none => w.fail .keyError
-        | some b => (gen L named f b.body (w.enter b.owner line)).leave
-      | .extends _ => w.fail .notImplemented
-      | .incl name line =>
-        match L.find name with
-        | none => w.fail .keyError
-        | some t => (gen L named f t.body (w.enter t line)).leave
-    gen L named f ns w'
+    if w.err.isSome then w else gen L named f ns (genNode L named (gen L named f) n w)
 
 /-- `find_named_blocks` over a body, in visiting order (later entries override earlier ones) -/
 def findNamed (L : Loader) : Nat → FileInfo → List Node → Except GenErr (List Named)
